@@ -7,13 +7,17 @@
 #include <exception>
 #include <sys/mman.h>
 
-static FILE *g_out = 0;
-static int g_outfd = -1;
+static thread_local FILE *g_out = 0;
+static thread_local int g_outfd = -1;
 static std::map<std::string, handler_t> g_handlers;
-static std::map<int, Obj> g_objs;
-static long g_line = 0;
+static thread_local std::map<int, Obj> g_objs;
+static thread_local long g_line = 0;
+// objects with id >= 1000 are created by the main thread before "threads.begin" and are shared
+// read-only by all worker threads (C16)
+static std::map<int, Obj> g_shared;
+static bool g_in_prologue = true;
 
-static std::map<std::string, bytes_t> g_regs;
+static thread_local std::map<std::string, bytes_t> g_regs;
 void reg_store(const Args &a, const bytes_t &v) {
     // save=NAME sets register NAME, save=NAME+ appends to it
     if (!a.has("save")) return;
@@ -139,6 +143,8 @@ void obj_check_all() {
     for (std::map<int, Obj>::iterator it = g_objs.begin(); it != g_objs.end(); ++it) obj_check(it->first, it->second);
 }
 Obj &obj_new(int id, const std::string &kind, size_t size) {
+    if (id >= 1000 && !g_in_prologue) fatal("shared object %d can only be created in the prologue", id);
+    std::map<int, Obj> &g_objs = id >= 1000 ? g_shared : ::g_objs;
     if (g_objs.count(id)) obj_del(id);
     Obj o; o.kind = kind; o.size = size;
     size_t padded = (size + 7) & ~(size_t)7;
@@ -152,6 +158,7 @@ Obj &obj_new(int id, const std::string &kind, size_t size) {
 }
 bool obj_exists(int id) { return g_objs.count(id) != 0; }
 Obj &obj_get(int id, const char *kind_prefix) {
+    std::map<int, Obj> &g_objs = id >= 1000 ? g_shared : ::g_objs;
     std::map<int, Obj>::iterator it = g_objs.find(id);
     if (it == g_objs.end()) fatal("no object %d", id);
     if (kind_prefix && it->second.kind.compare(0, strlen(kind_prefix), kind_prefix) != 0)
@@ -159,6 +166,7 @@ Obj &obj_get(int id, const char *kind_prefix) {
     return it->second;
 }
 void obj_del(int id) {
+    std::map<int, Obj> &g_objs = id >= 1000 ? g_shared : ::g_objs;
     std::map<int, Obj>::iterator it = g_objs.find(id);
     if (it == g_objs.end()) return;
     obj_check(id, it->second);
@@ -207,8 +215,49 @@ extern "C" void __sanitizer_set_death_callback(void (*)(void));
 
 static void h_reset(const Args &) { obj_reset_all(); g_regs.clear(); Ev("Reset").emit(); }
 
+static void run_line(const std::string &s, long lineno) {
+    g_line = lineno;
+    if (s.empty() || s[0] == '#') return;
+    std::stringstream ss(s);
+    Args a; ss >> a.op;
+    std::string tok;
+    while (ss >> tok) {
+        size_t eq = tok.find('=');
+        if (eq == std::string::npos) fatal("bad token %s", tok.c_str());
+        a.kv[tok.substr(0, eq)] = tok.substr(eq + 1);
+    }
+    std::map<std::string, handler_t>::iterator it = g_handlers.find(a.op);
+    if (it == g_handlers.end()) fatal("unknown op %s", a.op.c_str());
+    it->second(a);
+    obj_check_all();
+}
+#include <pthread.h>
+struct ThreadArg { const std::vector<std::string> *lines; size_t begin; int repeat; std::string out; std::string prologue; pthread_barrier_t *bar; };
+static void *thread_main(void *p) {
+    ThreadArg *ta = (ThreadArg *)p;
+    g_out = fopen(ta->out.c_str(), "w"); g_outfd = fileno(g_out);
+    fwrite(ta->prologue.data(), 1, ta->prologue.size(), g_out);     // the shared prologue, so each trace is self-contained
+    pthread_barrier_wait(ta->bar);
+    for (int r = 0; r < ta->repeat; ++r)
+        for (size_t i = ta->begin; i < ta->lines->size(); ++i) run_line((*ta->lines)[i], (long)i + 1);
+    obj_reset_all();
+    fclose(g_out);
+    return 0;
+}
+static void run_threads(const std::vector<std::string> &lines, size_t begin, int n, int repeat, const char *outbase) {
+    std::string prologue;
+    { FILE *f = fopen(outbase, "r"); char buf[4096]; size_t k; while (f && (k = fread(buf, 1, sizeof buf, f)) > 0) prologue.append(buf, k); if (f) fclose(f); }
+    pthread_barrier_t bar; pthread_barrier_init(&bar, 0, (unsigned)n);
+    std::vector<pthread_t> th(n); std::vector<ThreadArg> ta(n);
+    for (int i = 0; i < n; ++i) {
+        char nm[600]; snprintf(nm, sizeof nm, "%s.t%d", outbase, i);
+        ta[i].lines = &lines; ta[i].begin = begin; ta[i].repeat = repeat; ta[i].out = nm; ta[i].prologue = prologue; ta[i].bar = &bar;
+        pthread_create(&th[i], 0, thread_main, &ta[i]);
+    }
+    for (int i = 0; i < n; ++i) pthread_join(th[i], 0);
+}
 int main(int argc, char **argv) {
-    if (argc < 3) { fprintf(stderr, "usage: drv <plan> <trace>\n"); return 2; }
+    if (argc < 3) { fprintf(stderr, "usage: drv <plan> <trace> [threads [repeat]]\n"); return 2; }
     FILE *in = strcmp(argv[1], "-") ? fopen(argv[1], "r") : stdin;
     if (!in) { perror(argv[1]); return 2; }
     g_out = fopen(argv[2], "w");
@@ -228,26 +277,27 @@ int main(int argc, char **argv) {
     reg_masked(); reg_cpp(); reg_misc();
 #endif
 
-    char *line = 0; size_t cap = 0; ssize_t len;
-    while ((len = getline(&line, &cap, in)) > 0) {
-        ++g_line;
+    // read the whole plan
+    std::vector<std::string> lines;
+    { char *line = 0; size_t cap = 0; ssize_t len;
+      while ((len = getline(&line, &cap, in)) > 0) {
         std::string s(line, (size_t)len);
         while (!s.empty() && (s[s.size() - 1] == '\n' || s[s.size() - 1] == '\r')) s.erase(s.size() - 1);
-        if (s.empty() || s[0] == '#') continue;
-        std::stringstream ss(s);
-        Args a; ss >> a.op;
-        std::string tok;
-        while (ss >> tok) {
-            size_t eq = tok.find('=');
-            if (eq == std::string::npos) fatal("bad token %s", tok.c_str());
-            a.kv[tok.substr(0, eq)] = tok.substr(eq + 1);
-        }
-        std::map<std::string, handler_t>::iterator it = g_handlers.find(a.op);
-        if (it == g_handlers.end()) fatal("unknown op %s", a.op.c_str());
-        it->second(a);
-        obj_check_all();
+        lines.push_back(s);
+      }
+      free(line); }
+    size_t begin = 0;
+    for (size_t i = 0; i < lines.size(); ++i) if (lines[i] == "threads.begin") begin = i + 1;
+    int nthreads = argc > 3 ? atoi(argv[3]) : 0, repeat = argc > 4 ? atoi(argv[4]) : 1;
+    if (nthreads <= 0 || begin == 0) {
+        g_in_prologue = false;
+        for (size_t i = 0; i < lines.size(); ++i) if (lines[i] != "threads.begin") run_line(lines[i], (long)i + 1);
+    } else {
+        // prologue on the main thread (creates the shared objects); its events open every thread's trace
+        for (size_t i = 0; i + 1 < begin; ++i) run_line(lines[i], (long)i + 1);
+        fflush(g_out); g_in_prologue = false;
+        run_threads(lines, begin, nthreads, repeat, argv[2]);
     }
-    free(line);
     obj_reset_all();
     fclose(g_out);
     return 0;
